@@ -36,7 +36,37 @@ pub struct IoFault {
     pub errno: c_int,      // errno to return (0 = none)
     pub short: i64,        // for write: perform only this many bytes (>=0), -1 = not a short write
     pub then_crash: bool,  // _exit right after performing the (short) op
+    pub until_gate: Option<String>, // the rule is inactive once this gate has been reached (confines a fault to a phase)
     pub seen: u64,
+}
+
+/// Gates reached so far in this lifetime (reported by the controller); only consulted by `until_gate`.
+pub static GATES_SEEN: Mutex<Vec<String>> = Mutex::new(Vec::new());
+
+pub fn note_gate(name: &str) {
+    let mut g = GATES_SEEN.lock().unwrap();
+    if !g.iter().any(|x| x == name) {
+        g.push(name.to_string());
+    }
+}
+
+/// Read-only opens are not numbered events, but a rule with op "open_ro" can make the n-th matching one fail
+/// (an unreadable input file). Runs without such a rule are not affected in any way.
+fn ro_fault(seam: &mut Seam, rel: &str) -> Option<(String, c_int)> {
+    for f in seam.faults.iter_mut() {
+        if f.op == "open_ro" && f.errno != 0 && glob_match(&f.path, rel) {
+            if let Some(g) = &f.until_gate {
+                if GATES_SEEN.lock().unwrap().iter().any(|x| x == g) {
+                    continue;
+                }
+            }
+            f.seen += 1;
+            if f.nth == 0 || f.seen == f.nth {
+                return Some((f.id.clone(), f.errno));
+            }
+        }
+    }
+    None
 }
 
 pub struct Seam {
@@ -707,8 +737,15 @@ unsafe fn do_open(dirfd: c_int, path: *const c_char, flags: c_int, mode: libc::m
             set_errno(e);
             return -1;
         }
-    } else if LOG_READS.load(Ordering::Relaxed) {
-        log_line(&format!("{{\"t\":\"ro\",\"path\":{}}}", jstr(&rel)));
+    } else {
+        if let Some((id, e)) = ro_fault(seam, &rel) {
+            log_line(&format!("{{\"t\":\"rofault\",\"path\":{},\"fault\":{},\"errno\":{}}}", jstr(&rel), jstr(&id), e));
+            set_errno(e);
+            return -1;
+        }
+        if LOG_READS.load(Ordering::Relaxed) {
+            log_line(&format!("{{\"t\":\"ro\",\"path\":{}}}", jstr(&rel)));
+        }
     }
     let fd = real(path);
     if fd >= 0 && (fd as usize) < seam.fds.len() {
